@@ -40,7 +40,15 @@ impl Uci {
     fn uci_loop(&mut self, input: &mut impl BufRead) {
         loop {
             let mut line = String::new();
-            input.read_line(&mut line).unwrap();
+            match input.read_line(&mut line) {
+                Ok(0) => break, // End of input
+                Ok(_) => {}
+                Err(err) if err.kind() == std::io::ErrorKind::InvalidData => {
+                    self.elog(format!("Failed to read command: {err}"));
+                    continue;
+                }
+                Err(_) => break,
+            }
             let trimmed = line.trim();
             let fields: Vec<_> = trimmed.split_whitespace().collect();
 
